@@ -45,7 +45,8 @@ CORR = ["flip", "flip", "flip", "other-key", "window", "reparent", "wrong-root",
 KNOWN_SIG = "quote-certified-directly-by-x509-accepted"
 FLIP_FIELDS = {"quote": ["message", "custom_data", "signature"],
                "attestation": ["message", "key", "auth_data", "signature"]}
-REQUIRED_LABELS = {t: ["valid", "invalid:quote", "invalid:attestation",
+REQUIRED_LABELS = {t: ["valid", "invalid:quote", "invalid:attestation", "binding-shifted:quote",
+                       "binding-shifted:attestation",
                        "invalid:quoting_enclave", "invalid:platform_ca", "depth:1", "depth:2",
                        "depth:3", "revalidated:same", "revalidated:other", "tz:utc", "tz:other",
                        "time-passes:expired-since-import", "time-passes:valid-since-import"] + ["corr:" + k for k in sorted(set(CORR))]
@@ -70,6 +71,11 @@ def cases(draw, tier):
                                                   "ends-0000"])),
             "grind_auth": draw(st.sampled_from([None, None, None, "ends-00", "starts-00"])),
             "b64_wrap": draw(st.sampled_from([0, 0, 64, 76]))}
+    # the digest is in the (correctly signed) report data, but not at its beginning
+    sh = draw(st.sampled_from([None] * 8 + [["q", 1, "zero"], ["q", 32, "other"], ["q", 16, "zero"],
+                                            ["a", 1, "zero"], ["a", 32, "other"]]))
+    if sh:
+        spec["rd_shift_" + sh[0]] = [sh[1], sh[2]]
     corr = []
     for _ in range(draw(st.sampled_from([0, 1, 1, 1, 2]))):
         corr.append({"kind": draw(st.sampled_from(CORR)), "el": draw(st.integers(0, 9)),
@@ -315,6 +321,12 @@ def apply(c):
                 labels.append("p384-inter-applied")
             else:
                 labels[-1] = "corr:p384-inter-na"
+    if c["spec"].get("rd_shift_q"):
+        broken.add("quote")
+        labels.append("binding-shifted:quote")
+    if c["spec"].get("rd_shift_a"):
+        broken.add("attestation")
+        labels.append("binding-shifted:attestation")
     wrap = c["spec"].get("b64_wrap")
     if wrap:
         # certificates kept as the lines of the PEM they came in (what the gathering command
